@@ -38,7 +38,7 @@ LEVEL_TEXT = ("generated-input search: random expression trees over the complete
               "compared on a fixed pool of flows of every type against an independent evaluator; not exhaustive")
 LEVEL_NOTE = "trusts Python re, the spec->flow builder in lib/ref_filter.py and str(DNSMessage)"
 QUICK_N, THOROUGH_N = 10_000, 500_000
-BUDGET_S = (150, 7200)
+BUDGET_S = (300, 7200)
 
 # ------------------------------------------------------------------ regex grammar
 _WORDS = ["example", "EXAMPLE", "com", "api", "GET", "get", "post", "PUT", "html", "HTML", "text", "json", "image", "png",
